@@ -444,7 +444,7 @@ def _inline_return_temps(fn):
 # ----------------------------------------------------------------------------- inlining of freshly extracted helpers
 _PROTECTED: set | None = None
 _HOIST = [0]
-INLINE_ALWAYS = {"_restart_cancellation_in_parent", "_notify_next_waiter", "_check_acquired"}
+INLINE_ALWAYS = {"_restart_cancellation_in_parent", "_notify_next_waiter", "_check_acquired", "_spawn_task_from_thread"}
 
 
 def _protected_names() -> set:
@@ -906,7 +906,17 @@ def inline_fresh_helpers(repo: Repo, max_inlines: int = 200) -> list[str]:
                         mapping[pn] = d
                     else:
                         ok_all = False
-            if not ok_all or not all(_simple_arg(v) for v in mapping.values()) or (stored & set(mapping)):
+            def _arg_ok(pn_, v_):
+                if _simple_arg(v_):
+                    return True
+                # a display (`{}`, `{"k": v}`, `[a, b]`, `(a, b)`) of simple elements may replace a parameter that the helper uses once
+                if isinstance(v_, (ast.Dict, ast.List, ast.Tuple, ast.Set)):
+                    elts = ([k_ for k_ in v_.keys if k_ is not None] + list(v_.values)) if isinstance(v_, ast.Dict) else list(v_.elts)
+                    uses_ = sum(1 for s_ in body for x in ast.walk(s_) if isinstance(x, ast.Name) and x.id == pn_)
+                    return all(_simple_arg(e_) for e_ in elts) and uses_ <= 1 and not (isinstance(v_, ast.Dict) and any(k_ is None for k_ in v_.keys))
+                return False
+
+            if not ok_all or not all(_arg_ok(k_, v) for k_, v in mapping.items()) or (stored & set(mapping)):
                 ok_all = False
                 break
             if shape in ("assign", "return", "test", "wtest", "inline-expr") and not any(r.value is not None for r in rets):
